@@ -143,6 +143,16 @@ func genPipeline(pool func(*rapid.T) bool, withTTL bool) func(t *rapid.T) plCase
 				ttl := rapid.SampledFrom([]int64{1, 1e6, 1e9, 2e9}).Draw(t, "sttl")
 				return []plStep{{Op: "set", K: k, Cost: cost(), TTL: ttl}, {Op: "quiesce"}, {Op: "del", K: k},
 					{Op: "tick", Dt: ttl + rapid.Int64Range(1e9, 3e9).Draw(t, "over")}}
+			case 3: // cost updates of a TTL'd key arrive out of order (the decrease first), other keys fill the
+				// room the policy believes it has, and the key expires before the increase arrives
+				ttl := rapid.SampledFrom([]int64{1e9, 2e9}).Draw(t, "sttl")
+				big := c.MaxSize/2 + 1
+				g := []plStep{{Op: "set", K: k, Cost: 1, TTL: ttl}, {Op: "quiesce"},
+					{Op: "set", K: k, Cost: big}, {Op: "set", K: k, Cost: 1}, {Op: "deliver", I: 1}}
+				for j := 0; j < 3; j++ {
+					g = append(g, plStep{Op: "set", K: (k + 1 + j) % c.Keys, Cost: cost()}, plStep{Op: "deliver", I: 1})
+				}
+				return append(g, plStep{Op: "tick", Dt: ttl + rapid.Int64Range(1e9, 2e9).Draw(t, "over")}, plStep{Op: "quiesce"})
 			case 2: // eviction between a Delete and its event: delete, then overflow the cache before the REMOVE arrives
 				g := []plStep{{Op: "set", K: k, Cost: 1}, {Op: "quiesce"}, {Op: "del", K: k}}
 				for j := 0; j < 3; j++ {
